@@ -66,6 +66,12 @@ Proof.
 Qed.
 
 (** ** conditions *)
+Lemma reads_only_eq3f s t f g : reads_only s f -> reads_only t g -> reads_only (s ++ t) (eq3f f g).
+Proof.
+  intros Hf Hg r r' H. unfold eq3f.
+  rewrite (Hf r r') by (intros c Hc; apply H, in_or_app; left; exact Hc).
+  rewrite (Hg r r') by (intros c Hc; apply H, in_or_app; right; exact Hc). reflexivity.
+Qed.
 Lemma holdsf_and3f f g r : holdsf (and3f f g) r = holdsf f r && holdsf g r.
 Proof. unfold holdsf, and3f. destruct (f r) as [| [] | | | |]; destruct (g r) as [| [] | | | |]; reflexivity. Qed.
 Lemma filter_true {A} (l : list A) : filter (fun _ => true) l = l.
@@ -301,6 +307,14 @@ Proof.
            | match ?t with _ => _ end = _ => destruct t; try discriminate
            end.
     inversion H; subst. apply wf_proj. }
+  destruct (String.eqb op "hashjoin").
+  { repeat match type of H with
+           | match ?t with _ => _ end = _ => destruct t; try discriminate
+           end.
+    repeat match goal with
+           | Hf : Forall _ (_ :: _) |- _ => let a := fresh "W" in let b := fresh "Ws" in inversion Hf as [|? ? a b]; subst; clear Hf
+           end.
+    cbn [wf_sem] in *. eapply wf_join; [| |eassumption]; assumption. }
   repeat match type of H with
          | match ?t with _ => _ end = _ => destruct t; try discriminate
          end;
@@ -311,6 +325,7 @@ Proof.
   cbn [wf_sem] in *;
   try (inversion H; subst; cbn [wf_sem];
        first [ apply reads_only_app_l; assumption
+             | apply reads_only_eq3f; assumption
              | constructor
              | apply wf_filter; assumption
              | eapply wf_perm; [apply sort_by_perm|assumption]
